@@ -27,11 +27,17 @@ type Obl struct {
 	Cover   bool // vacuity query: expected SAT
 	noSplit bool
 	Slow    bool
+	Clause  CExpr // contract clause behind a post/objinv obligation (for replay)
+	ClCx    *Ctx
+	SelfIs  string
 	Mode    string
 	Bounded int
 }
 
 type Exec struct {
+	callResLayout map[string]*Layout   // result layout of callees recorded in the ghost call log
+	callArgLayout map[string][]*Layout // argument layouts of callees recorded in the ghost call log
+
 	P    *Prog
 	q    *Q
 	ar   Arith
@@ -119,6 +125,7 @@ type Frame struct {
 	backEdges map[[2]*ssa.BasicBlock]bool
 	callStack []*ssa.Function
 	callArgs  []ssa.Value // arguments of the call that created this (inlined) frame
+	localMaps map[ssa.Value]*localMap
 }
 
 type envEnt struct {
@@ -138,7 +145,7 @@ func newExec(P *Prog, fn *ssa.Function, spec *FuncSpec, thorough bool, forceMode
 		strLits: map[string]string{}, globIDs: map[string]int{}, thorough: thorough, branchSeen: map[string]bool{}, retSiteHits: map[string]int{}}
 	ex.ctr0 = ex.q.fresh("ctr0", SInt)
 	ex.q.assume("(>= " + ex.ctr0 + " 0)")
-	ex.q.lines = append(ex.q.lines, "(declare-const f64zero F64)")
+	ex.q.lines = append(ex.q.lines, "(define-fun f64zero () F64 (_ +zero 11 53))")
 	return ex
 }
 
@@ -339,6 +346,9 @@ func (ex *Exec) constVal(c *ssa.Const) *Val {
 			f, _ := constant.Float64Val(c.Value)
 			if f == 0 {
 				return sv("f64zero")
+			}
+			if isFloat64(c.Type()) {
+				return sv(f64Lit(f))
 			}
 			return sv(ex.floatConst(fmt.Sprint(f)))
 		}
@@ -1351,16 +1361,26 @@ func (fr *Frame) placeAsserts() {
 		var found []ast.Stmt
 		ast.Inspect(syn, func(n ast.Node) bool {
 			if st, ok := n.(ast.Stmt); ok {
-				if _, isBlock := n.(*ast.BlockStmt); !isBlock && fr.ex.P.nodeText(st) == pa.Stmt {
-					found = append(found, st)
+				if _, isBlock := n.(*ast.BlockStmt); !isBlock {
+					// "x := ..." anchors on any statement that starts this way
+					txt := fr.ex.P.nodeText(st)
+					if txt == pa.Stmt || (strings.HasSuffix(pa.Stmt, "...") && strings.HasPrefix(txt, strings.TrimSuffix(pa.Stmt, "..."))) {
+						found = append(found, st)
+					}
 				}
 			}
 			return true
 		})
-		if len(found) != 1 {
+		pick := 0
+		if pa.Nth > 0 {
+			if pa.Nth > len(found) {
+				panic(fmt.Errorf("contract: assert after %q@%d: statement found only %d times in %s", pa.Stmt, pa.Nth, len(found), fr.fn.Name()))
+			}
+			pick = pa.Nth - 1
+		} else if len(found) != 1 {
 			panic(fmt.Errorf("contract: assert after %q: statement found %d times in %s", pa.Stmt, len(found), fr.fn.Name()))
 		}
-		lo, hi := found[0].Pos(), found[0].End()
+		lo, hi := found[pick].Pos(), found[pick].End()
 		var bb *ssa.BasicBlock
 		bi := -1
 		var bp token.Pos
@@ -1393,4 +1413,10 @@ func (fr *Frame) placeAsserts() {
 		}
 		fr.asserts[bb][bi] = append(fr.asserts[bb][bi], pa.Clause)
 	}
+}
+
+// isFloat64: float64 (or an untyped float constant); float32 stays uninterpreted.
+func isFloat64(t types.Type) bool {
+	b, ok := t.Underlying().(*types.Basic)
+	return ok && (b.Kind() == types.Float64 || b.Kind() == types.UntypedFloat)
 }
